@@ -13,7 +13,7 @@ def main():
     for a in sys.argv[2:]:
         if a.startswith("--checks"):
             checks = sys.argv[sys.argv.index(a) + 1].split(",")
-    src = f"/tmp/seed/out/{pid}"
+    src = os.path.join(os.environ.get("SEED_SRC", "/tmp/seed/out"), pid)
     ks = ks or sorted(os.listdir(src))
     for k in ks:
         d = os.path.join(src, k)
@@ -39,7 +39,7 @@ def main():
                 viol = [l for l in r.stdout.splitlines() if l.startswith("VIOLATION") or l.startswith("  obligation")]
                 res["checks"][c] = {"exit": r.returncode, "seconds": round(time.time() - t0, 1), "lines": viol[:6],
                                     "tail": r.stdout.splitlines()[-3:] if r.returncode not in (0, 1) else []}
-            out = f"/verif/seeded/{pid}_{k}"
+            out = f"/verif/seeded/{pid}_{os.environ.get('SEED_TAG', '')}{k}"
             os.makedirs(out, exist_ok=True)
             shutil.copy(os.path.join(d, "patch.diff"), out)
             shutil.copy(os.path.join(d, "demo.py"), out)
